@@ -54,6 +54,14 @@ func (p *CompressedRistretto) MarshalBinary() ([]byte, error) {
 
 // UnmarshalBinary decodes a binary serialized compressed Ristretto point.
 func (p *CompressedRistretto) UnmarshalBinary(data []byte) error {
+	// data may alias the receiver (`p.UnmarshalBinary(p[:])`), decode what
+	// was passed in, not the reset value.
+	var tmp [CompressedPointSize]byte
+	if len(data) == CompressedPointSize {
+		copy(tmp[:], data)
+		data = tmp[:]
+	}
+
 	p.Identity() // Foot + gun avoidance.
 
 	var rp RistrettoPoint
